@@ -3,7 +3,7 @@ CONSTANTS
  Setups <- S_dup
  Acts <- A_dup
  Bufs <- B_one
- MaxSteps = 5
+ MaxSteps = 4
  MaxIn = 2
  Variant = "ok"
  CheckEpi = TRUE
